@@ -62,9 +62,11 @@ def gen_plan(rng, tier, index):
             if rng.chance(0.2):
                 fault = rng.pick([['enospc_after', rng.pick([0, 10, 100, 600, 3000])], ['eio_on_write', rng.randint(1, 6)]])
             fops.append({'op': 'save', 't': rng.randrange(1000), 'target': rng.wpick(TARGETS), 'ft': rng.pick(['hdf5', 'pkl']), 'fd': rng.chance(0.3),
-                         'overwrite': rng.chance(0.5), 'fault': fault, 'crash': rng.chance(0.5), 'p': rng.randrange(1000)})
+                         'ext': rng.pick(['match'] * 5 + ['other', 'none', 'hdf5']), 'overwrite': rng.chance(0.5), 'fault': fault, 'crash': rng.chance(0.5), 'p': rng.randrange(1000)})
         elif rng.chance(0.25):
             fops.append({'op': 'mutate', 't': rng.randrange(1000), 'seed': rng.randrange(10 ** 6)})
+        elif rng.chance(0.12):
+            fops.append({'op': 'gc'})
         else:
             fops.append({'op': 'load', 'p': rng.randrange(1000), 'via': rng.pick(['path', 'handle', 'path'])})
     plan['ops'] = fops
@@ -381,6 +383,11 @@ def execute(plan, ctx):
                 _do_save(ctx, pool, fs, files, objs, kind, o)
             elif o['op'] == 'mutate':
                 _do_mutate(ctx, pool, objs, kind, o)
+            elif o['op'] == 'gc':
+                import gc
+                ctx.tick('gc')
+                gc.collect()                   # the cycle collector runs only at the instants the plan names
+                ctx.probe('gc_steps')
             else:
                 _do_load(ctx, pool, fs, files, kind, o)
         # final sweep: every acknowledged file still loads to its twin
@@ -420,7 +427,12 @@ def _load_and_compare(ctx, pool, fs, e, kind, source, route):
     try:
         if isinstance(source, str):
             fs.tick('load', target=fs.rel(source), route=route)
-            loaded = load(source)
+            inferable = source.endswith('.pkl') if e['ft'] == 'pkl' else (source.endswith('.h5') or source.endswith('hdf5'))
+            if inferable and len(fs.rel(source)) % 3:
+                loaded = load(source)                            # file type inferred from the name
+            else:
+                loaded = load(source, file_type=e['ft'])        # explicit file type (the name may suggest otherwise)
+                ctx.probe('load_explicit_type' + ('' if inferable else '_name_disagrees'))
         else:
             source.seek(0)
             fs.tick('load', target='<handle>', route=route)
@@ -498,6 +510,12 @@ def _do_save(ctx, pool, fs, files, objs, kind, o):
                 return        # None entries are not among the descriptor value types the statement quantifies over
     ft, ow, target = o['ft'], o['overwrite'], o['target']
     ext = 'h5' if ft == 'hdf5' else 'pkl'
+    if o.get('ext') == 'other':
+        ext = 'pkl' if ft == 'hdf5' else 'h5'       # a name whose ending suggests the other format: the explicit file_type decides
+    elif o.get('ext') == 'none':
+        ext = 'dat'
+    elif o.get('ext') == 'hdf5' and ft == 'hdf5':
+        ext = 'hdf5'
     fault = tuple(o['fault']) if o['fault'] else None
     entry = None
     handle = None
